@@ -399,6 +399,184 @@ def serialize(el: ET.Element, tns, pfx, redeclare=False, rng=None, top=True) -> 
     return ''.join(parts)
 
 
+# ------------------------------------------------------------------------------------ nested namespace declarations
+
+FOREIGN_NS = ['urn:x', 'urn:y']
+NS_PREFIXES = ['t', 'p', 'q', 'n1']
+NS_ACTIONS = ['default-off', 'default-tns', 'default-foreign', 'new-prefix', 'rebind-prefix', 'unrelated']
+
+
+def serialize_nested(rng, root: ET.Element, tns, pfx, rate: float = 0.45) -> tuple[str, dict]:
+    """Validity-preserving re-serialisation of a generated instance: the same expanded names, attribute values
+    and character data, but non-root elements carry random namespace (re)declarations at any depth
+        default-off      xmlns=""                     (the default namespace is un-declared)
+        default-tns      xmlns="<target namespace>"   (bound, or re-bound after an un-declaration)
+        default-foreign  xmlns="urn:x"                (re-bound to a namespace that no name uses)
+        new-prefix       xmlns:q="<target namespace>" (one more prefix for the target namespace)
+        rebind-prefix    an in-scope prefix of the target namespace re-bound to a foreign one, or back
+        unrelated        xmlns:q="urn:x"              (possibly shadowing / re-binding an unrelated prefix)
+    and every element / qualified attribute name is written with a randomly chosen in-scope prefix that denotes
+    its namespace; the declarations needed to keep a name expressible are added (xmlns="" for a no-namespace
+    element under a bound default namespace, a prefix for the target namespace when none is left in scope).
+    The root start tag is the one `serialize` writes.  Returns (text, shape statistics of the declarations)."""
+    stats = {'decl-elements': 0, 'max-decl-depth': 0, 'actions': set(), 'rebind': 0, 'multi-pop': 0,
+             'multi-pop-rebind-then-later': 0}
+    order: list = []          # document order: (level, has declarations, re-binds something in scope)
+
+    def split(name):
+        if name[0] == '{':
+            ns, loc = name[1:].split('}')
+            return ns, loc
+        return '', name
+
+    def pick_prefix(scope, decl, ns, attr):
+        cur = dict(scope, **decl)
+        cands = [p for p, u in cur.items() if u == ns and (p or not attr)]
+        if not cands:
+            free = [p for p in NS_PREFIXES if p not in decl]
+            p = rng.choice(free)
+            decl[p] = ns
+            stats['actions'].add('forced-prefix')
+            return p
+        return rng.choice(cands)
+
+    def emit(e, scope, level, ndecl):
+        top = level == 0
+        decl: dict = {}
+        if top:
+            if tns:
+                if pfx:
+                    decl[pfx] = tns
+                else:
+                    decl[''] = tns
+                    decl['ta'] = tns
+        elif rng.random() < rate:
+            acts = [a for a in NS_ACTIONS if tns or a in ('default-off', 'unrelated')]
+            for _ in range(rng.choice([1, 1, 2])):
+                act = rng.choice(acts)
+                if act == 'default-off':
+                    decl[''] = ''
+                elif act == 'default-tns':
+                    decl[''] = tns
+                elif act == 'default-foreign':
+                    decl[''] = rng.choice(FOREIGN_NS)
+                elif act == 'new-prefix':
+                    decl[rng.choice(NS_PREFIXES)] = tns
+                elif act == 'rebind-prefix':
+                    ps = [p for p in scope if p and p != 'xml']
+                    if not ps:
+                        continue
+                    p = rng.choice(ps)
+                    decl[p] = rng.choice(FOREIGN_NS) if scope[p] == tns else (tns or rng.choice(FOREIGN_NS))
+                else:
+                    decl[rng.choice(['q', 'n1', 'o'])] = rng.choice(FOREIGN_NS)
+                stats['actions'].add(act)
+        ns, loc = split(e.tag)
+        if top:
+            tag = f'{pfx}:{loc}' if ns and pfx else loc
+        elif not ns:
+            if dict(scope, **decl).get('', ''):
+                decl[''] = ''
+                stats['actions'].add('forced-default-off')
+            tag = loc
+        else:
+            p = pick_prefix(scope, decl, ns, False)
+            tag = f'{p}:{loc}' if p else loc
+        attrs = []
+        for k, v in e.attrib.items():
+            ans, aloc = split(k)
+            if ans:
+                p = (pfx or 'ta') if top else pick_prefix(scope, decl, ans, True)
+                attrs.append(f' {p}:{aloc}="{esc(v, True)}"')
+            else:
+                attrs.append(f' {aloc}="{esc(v, True)}"')
+        # a declaration that changes what an in-scope prefix (or the default namespace) denotes
+        rebinds = any(scope.get(p, '' if p == '' else None) not in (None, u) for p, u in decl.items())
+        if decl and not top:
+            stats['decl-elements'] += 1
+            stats['max-decl-depth'] = max(stats['max-decl-depth'], ndecl + 1)
+            if rebinds:
+                stats['rebind'] += 1
+        order.append((level, bool(decl) and not top, rebinds and not top))
+        parts = ['<' + tag]
+        parts.extend(f' xmlns:{p}="{u}"' if p else f' xmlns="{u}"' for p, u in decl.items())
+        parts.extend(attrs)
+        inner = dict(scope, **decl)
+        if e.text is None and len(e) == 0:
+            parts.append('/>')
+        else:
+            parts.append('>')
+            if e.text:
+                parts.append(esc(e.text))
+            for c in e:
+                parts.append(emit(c, inner, level + 1, ndecl + (1 if decl and not top else 0)))
+                if c.tail:
+                    parts.append(esc(c.tail))
+            parts.append(f'</{tag}>')
+        return ''.join(parts)
+
+    text = emit(root, {}, 0, 0)
+    # the stack of declaration contexts as a pre-order walk sees it (namespaces.py set_xmlns_context): how often
+    # does one step leave two or more declaring elements at once, and is the outermost of them a re-binding one
+    stack: list = []
+    for i, (level, has, reb) in enumerate(order):
+        popped = []
+        while stack and stack[-1][0] >= level:
+            popped.append(stack.pop())
+        if len(popped) >= 2:
+            stats['multi-pop'] += 1
+            if popped[-1][1]:
+                stats['multi-pop-rebind-then-later'] += 1
+        if has:
+            stack.append((level, reb))
+    stats['actions'] = sorted(stats['actions'])
+    return text, stats
+
+
+def ns_walk(xml: str) -> list:
+    """elements of a document in document order: {'level', 'tag' (expanded), 'decl' [(prefix, uri)…] written on
+    the element, 'scope' {prefix: uri} in force before its own declarations, 'parent' index or None}"""
+    import io
+    out: list = []
+    pending: list = []
+    scopes: list = [{}]
+    open_: list = []
+    for ev, x in ET.iterparse(io.BytesIO(xml.encode()), events=('start-ns', 'start', 'end')):
+        if ev == 'start-ns':
+            pending.append((x[0] or '', x[1]))
+        elif ev == 'start':
+            out.append({'level': len(open_), 'tag': x.tag, 'decl': pending, 'scope': scopes[-1],
+                        'parent': open_[-1] if open_ else None})
+            open_.append(len(out) - 1)
+            scopes.append(dict(scopes[-1], **dict(pending)))
+            pending = []
+        else:
+            open_.pop()
+            scopes.pop()
+    return out
+
+
+def keys_stable(xml: str) -> bool:
+    """The collapsing conventions name a child by its prefixed name *in the child's own namespace context*
+    (groups.py:1008-1009), so two same-named siblings become two different dictionary keys ('p:a', 'q:a') when one
+    of them re-declares a prefix of / for its own namespace — the relative order of the members of different
+    keys is then lost exactly as for non-contiguous names.  True when no member of a group of >= 2 same-named
+    (namespaced) siblings carries a declaration that binds its namespace or re-binds a prefix that denotes it."""
+    nodes = ns_walk(xml)
+    groups: dict = {}
+    for i, n in enumerate(nodes):
+        if n['parent'] is not None and n['tag'][0] == '{':
+            groups.setdefault((n['parent'], n['tag']), []).append(n)
+    for (_, tag), members in groups.items():
+        if len(members) < 2:
+            continue
+        ns = tag[1:].split('}')[0]
+        for n in members:
+            if any(u == ns or n['scope'].get(p) == ns for p, u in n['decl']):
+                return False
+    return True
+
+
 def contiguous(el: ET.Element) -> bool:
     """same-named children are adjacent, in every element of the tree"""
     for e in el.iter():
